@@ -209,7 +209,20 @@ func OpenBucket(urlStr string, bucketName string, mode OpenMode) (b *Bucket, err
 		return nil, err
 	}
 
-	hlc.updateLatestTime(bucket.getLastTimestamp())
+	// What the bucket persisted must be restored or the open fails: a silently skipped read would leave
+	// the clock able to hand out CAS values again that the bucket has already used, or leave the
+	// pending expirations without a timer.
+	lastTimestamp, err := bucket.getLastTimestamp()
+	if err != nil {
+		return nil, err
+	}
+	hlc.updateLatestTime(lastTimestamp)
+	var nextExp Exp
+	if vers != 0 {
+		if nextExp, err = bucket.nextExpiration(); err != nil {
+			return nil, err
+		}
+	}
 
 	exists, bucketCopy := registerBucket(bucket)
 	// someone else beat registered the bucket in the registry, that's OK we'll close ours
@@ -219,8 +232,8 @@ func OpenBucket(urlStr string, bucketName string, mode OpenMode) (b *Bucket, err
 		_ = bucket.sqliteDB.Close()
 	}
 	// only schedule expiration if bucket is not new. This doesn't need to be locked because only one bucket will execute this code.
-	if vers != 0 {
-		bucket._scheduleExpiration()
+	if nextExp > 0 {
+		bucket.expManager._scheduleExpirationAtOrBefore(nextExp)
 	}
 
 	return bucketCopy, err
